@@ -12,6 +12,7 @@ import (
 	"verif/checks/c05"
 	"verif/checks/c06"
 	"verif/checks/c07"
+	"verif/checks/c08"
 	"verif/checks/c09"
 	"verif/checks/c10"
 	"verif/checks/c11"
@@ -40,6 +41,7 @@ var checks = map[string]check{
 	"C05": {"exploration", c05.Run},
 	"C06": {"exploration", c06.Run},
 	"C07": {"exploration", c07.Run},
+	"C08": {"exploration", c08.Run},
 	"C09": {"exploration", c09.Run},
 	"C10": {"model_checking", c10.Run},
 	"C11": {"exploration", c11.Run},
